@@ -399,7 +399,33 @@ def run_switch(case):
             "outcome": "switch-ok" if not any(not f.get("known") for f in fails) else "FAIL"}
 
 
+def run_edge(case):
+    """('edge', provider, zone, era year, which): a window that STARTS (or ENDS) on the local date of one of the zone's own
+    transitions - the window bounds are dates, the transition usually is not at midnight."""
+    _, provider, key, era, which = case
+    segs = source_segments(provider, key, datetime(era, 1, 1), datetime(era + 3, 1, 1))
+    if not segs or len(segs) < 2:
+        return {"state": ("edge-no-transition", key), "trans": 0, "traces": 0, "nontrivial": False, "outcome": "edge:no-transition", "fails": []}
+    t_utc, prev_off = segs[1][0], segs[0][1]
+    d = (t_utc + timedelta(seconds=prev_off)).date()
+    if which == "start":
+        w0, w1 = d, d + timedelta(days=300)
+    else:
+        w0, w1 = d - timedelta(days=300), d
+    r = run_case(("z", provider, key, (w0.year, w0.month, w0.day), (w1.year, w1.month, w1.day), False))
+    fails = []
+    for f in r["fails"]:
+        f = dict(f)
+        f["cls"] = f"edge-{which}:{f['cls']}"
+        f["case"] = case
+        fails.append(f)
+    return {"state": ("edge", provider, key, era, which, repr(r.get("state"))[:80]), "trans": r.get("trans", 1), "nontrivial": True,
+            "fails": fails, "outcome": "edge:" + str(r.get("outcome"))}
+
+
 def replay(case):
+    if case[0] == "edge":
+        return run_edge(case)
     return run_switch(case) if case[0] == "sw" else run_case(case)
 
 
@@ -412,7 +438,7 @@ def run(ctx):
     ctx.rule = ("E-dom: every zone id (%d zoneinfo, %d pytz; quick tier: all zoneinfo zones, a seed-rotated third of the pytz zones on the default window; regeneration (4) for a seed-rotated third of the zoneinfo zones) x both providers x windows %s: well-formedness, RFC onset "
                 "interpretation and the converted zone vs the source at every point of the partition induced by source breakpoints "
                 "and generated onsets (+-1s and interior points), regeneration. non-trivial = zone with at least one transition in the "
-                "window. E-hist: for 10 zones (incl. those on which the providers' databases disagree) generate / switch provider / generate / switch back / generate, every result judged against the then-active provider's zone." % (len(zi), len(pz), [f"{a}..{b}" for a, b in windows][:4]))
+                "window. Windows whose first / last date is the local date of the zone's own first transition of 2019 (thorough: 1975, 1995, 2019; quick: a seed-rotated half of the zoneinfo zones). E-hist: for 10 zones (incl. those on which the providers' databases disagree) generate / switch provider / generate / switch back / generate, every result judged against the then-active provider's zone." % (len(zi), len(pz), [f"{a}..{b}" for a, b in windows][:4]))
     ctx.bounds = {"windows": [f"{a}..{b}" for a, b in windows], "zoneinfo_zones": len(zi), "pytz_zones": len(pz)}
     ctx.assumptions += ["instants before the first generated onset are excluded (the component says it only works inside its window)",
                         "ground truth: TZif reader (zoneinfo) / the provider's transition table (pytz); the provider object itself is used only to place the window"]
@@ -436,3 +462,15 @@ def run(ctx):
                     yield ("sw", key, w0, w1, order)
 
     ctx.explore("provider-switch histories", gen_switch, run_switch, recheck=False)
+
+    def gen_edge():
+        eras = (2019,) if ctx.quick else (1975, 1995, 2019)
+        for era in eras:
+            for provider in env.PROVIDERS:
+                for ki, key in enumerate(zi if provider == "zoneinfo" else pz):
+                    if ctx.quick and (provider == "pytz" or ki % 2 != ctx.seed % 2):
+                        continue  # quick: a seed-rotated half of the zoneinfo zones
+                    for which in ("start", "end"):
+                        yield ("edge", provider, key, era, which)
+
+    ctx.explore("windows-on-transition-dates", gen_edge, run_edge, recheck=False)
